@@ -7,8 +7,10 @@ type MaxNode struct {
 	Max   int
 }
 
-func (self MaxNode) CheckContainerPreConstraints(r *ChildRequest) (bool, error) {
-	if r.IsNavigation() {
+// pointer receiver, the count has to last from one request to the next. counts the
+// containers found, not the requests for them
+func (self *MaxNode) CheckContainerPostConstraints(r ChildRequest, child *Selection) (bool, error) {
+	if r.IsNavigation() || child == nil {
 		return true, nil
 	}
 	self.Count++
